@@ -61,7 +61,9 @@ class Prop:
                     bits = gen.payload_bits(rng, 'MessageType8', length=rng.randint(200, 900))
                     payload, _ = gen.armor(bits)
                     cuts = sorted(rng.sample(range(1, len(payload)), n - 1))
-                    lines = gen.render(bits, seq=str(len(parts) % 10), chan=rng.choice('AB'), cuts=cuts)
+                    # sequence ids 0-9 and the empty id (distinct slots, also 0 versus empty)
+                    seq = rng.choice(['0', '', str(len(parts) % 10), str(rng.randint(0, 9))])
+                    lines = gen.render(bits, seq=seq, chan=rng.choice('AB'), cuts=cuts)
                     rng.shuffle(lines)
                     parts.append(lines)
                 elif r < 0.72:
@@ -136,8 +138,35 @@ class Prop:
                          {'sequence': name, 'parts': op.split()[2:]}, exp[:150], o[:150], {'kind': 'oneshot'})
 
     def replay(self, ctx, payload):
-        print(str(payload['failure']['input'])[:2000])
-        return True
+        inp = payload['failure']['input']
+        if 'parts' in inp:
+            # decode() of the parts vs the sentence IterMessages assembles from them
+            parts = inp['parts']
+            o = impl.step('decode 0 ' + ' '.join(parts))
+            d = deliveries(impl.step('stream iter 0 ' + ' '.join(sorted(parts))))
+            exps = {impl.step('frombits %s' % dl[2]) if dl[1] != '-' else 'ERR:MissingPayloadException' for dl in d[0]}
+            print('decode():', o[:200], 'readers:', [e[:200] for e in exps])
+            return o in exps
+        lines = [impl.unhx(x) for x in inp['lines']]
+        hexes = ' '.join(inp['lines'])
+        tbq, fe = inp['tbq'], inp['frontend']
+        ref = deliveries(impl.step('stream iter %d %s' % (tbq, hexes)))
+        if fe in ('iter', 'bytestream', 'queue'):
+            d = deliveries(impl.step('stream %s %d %s' % (fe, tbq, hexes)))
+        elif fe == 'file':
+            d = deliveries(impl.step('file %d %s' % (tbq, b''.join(l + b'\n' for l in lines).hex())))
+        else:
+            stream = b''.join(l + b'\r\n' for l in lines)
+            rng = ctx.rng('replay')
+            ok = True
+            for _ in range(20):
+                cuts = sorted(set(rng.sample(range(1, len(stream)), min(rng.randint(0, 12), len(stream) - 1))))
+                pts = [0] + cuts + [len(stream)]
+                d = deliveries(impl.step('socket %d %s' % (tbq, ' '.join(stream[a:b].hex() for a, b in zip(pts, pts[1:])))))
+                ok = ok and not d[2] and d[0] == ref[0] and d[1] == ref[1]
+            return ok
+        print('reference deliveries %d, %s deliveries %d, exception %r' % (len(ref[0]), fe, len(d[0]), d[2]))
+        return not d[2] and d[0] == ref[0] and d[1] == ref[1]
 
 
 PROP = Prop()
